@@ -1,70 +1,105 @@
 ---------------------------- MODULE Lifespan ----------------------------
-(* C03, lifespan clause: on lifespan.startup the process_startup handlers of the middleware
-   components run in the order the components were added, on lifespan.shutdown the
-   process_shutdown handlers run in reverse order; the first handler that raises is reported to
-   the server with one *.failed event and nothing runs after it; otherwise one *.complete event
-   is sent after the last handler.  One action per handler call; what the handler does (ok /
-   raise) is chosen when it is called. *)
+(* C03, lifespan clause.  One application object may be taken through the lifespan protocol
+   several times (a server re-entering the lifespan scope, several test-client contexts), and
+   middleware may be added between two cycles.  In every cycle: on lifespan.startup the
+   process_startup handlers of the components run in the order the components were added, on
+   lifespan.shutdown the process_shutdown handlers run in reverse order; the first handler that
+   raises is reported with one *.failed event and nothing runs after it; otherwise one *.complete
+   event is sent after the last handler.  One action per handler call; what the handler does
+   (ok / raise) is chosen when it is called. *)
 EXTENDS Integers, Sequences, FiniteSets, TLC
 
-CONSTANTS HandlerStacks      \* set of sequences of subsets of {"startup", "shutdown"}
+CONSTANTS HandlerStacks,     \* set of initial component stacks: sequences of subsets of {"startup", "shutdown"}
+          AddShapes,         \* shapes of components that may be added between cycles
+          MaxAdds,           \* at most this many add_middleware calls
+          MaxCycles          \* at most this many lifespan cycles on the one application object
 
-VARIABLES hs,        \* the components' lifespan methods
-          phase,     \* "idle" | "startup" | "up" | "shutdown" | "down"
+VARIABLES hs,        \* the components' lifespan methods, in the order they were added
+          phase,     \* "out" (no lifespan scope open) | "idle" | "startup" | "up" | "shutdown"
           i,         \* component index the framework stands at
-          calls,     \* observable: <<site, component, act>> records
-          sent       \* observable: events sent to the server
-vars == <<hs, phase, i, calls, sent>>
+          cycle,     \* number of the current (or last) cycle
+          adds,      \* <<cycle count at the time, shape>> of every add_middleware between cycles
+          sd,        \* per finished or running cycle: did the server send lifespan.shutdown
+          calls,     \* observable: [site, c, act, cyc] records
+          sent       \* observable: [ev, cyc] records of events sent to the server
+vars == <<hs, phase, i, cycle, adds, sd, calls, sent>>
 N == Len(hs)
-Call(site, c, act) == [site |-> site, c |-> c, act |-> act]
+Call(site, c, act) == [site |-> site, c |-> c, act |-> act, cyc |-> cycle]
+Sent(ev) == [ev |-> ev, cyc |-> cycle]
 
-Init == /\ hs \in HandlerStacks /\ phase = "idle" /\ i = 0 /\ calls = <<>> /\ sent = <<>>
+Init == /\ hs \in HandlerStacks /\ phase = "out" /\ i = 0 /\ cycle = 0 /\ adds = <<>> /\ sd = <<>>
+        /\ calls = <<>> /\ sent = <<>>
 
-RecvStartup == /\ phase = "idle" /\ phase' = "startup" /\ i' = 1 /\ UNCHANGED <<hs, calls, sent>>
+AddMiddleware(s) ==
+    /\ phase = "out" /\ Len(adds) < MaxAdds
+    /\ hs' = Append(hs, s) /\ adds' = Append(adds, [after |-> cycle, shape |-> s])
+    /\ UNCHANGED <<phase, i, cycle, sd, calls, sent>>
+
+Enter == /\ phase = "out" /\ cycle < MaxCycles
+         /\ cycle' = cycle + 1 /\ phase' = "idle" /\ sd' = Append(sd, FALSE)
+         /\ UNCHANGED <<hs, i, adds, calls, sent>>
+
+RecvStartup == /\ phase = "idle" /\ phase' = "startup" /\ i' = 1 /\ UNCHANGED <<hs, cycle, adds, sd, calls, sent>>
 
 StartupCall(act) ==
     /\ phase = "startup" /\ i <= N /\ "startup" \in hs[i]
     /\ calls' = Append(calls, Call("startup", i, act))
     /\ IF act = "ok" THEN i' = i + 1 /\ UNCHANGED <<phase, sent>>
-       ELSE sent' = Append(sent, "startup.failed") /\ phase' = "down" /\ UNCHANGED i
-    /\ UNCHANGED hs
+       ELSE sent' = Append(sent, Sent("startup.failed")) /\ phase' = "out" /\ UNCHANGED i
+    /\ UNCHANGED <<hs, cycle, adds, sd>>
 StartupSkip == /\ phase = "startup" /\ i <= N /\ "startup" \notin hs[i] /\ i' = i + 1
-               /\ UNCHANGED <<hs, phase, calls, sent>>
+               /\ UNCHANGED <<hs, phase, cycle, adds, sd, calls, sent>>
 StartupDone == /\ phase = "startup" /\ i > N
-               /\ sent' = Append(sent, "startup.complete") /\ phase' = "up" /\ UNCHANGED <<hs, i, calls>>
+               /\ sent' = Append(sent, Sent("startup.complete")) /\ phase' = "up"
+               /\ UNCHANGED <<hs, i, cycle, adds, sd, calls>>
 
-RecvShutdown == /\ phase = "up" /\ phase' = "shutdown" /\ i' = N /\ UNCHANGED <<hs, calls, sent>>
+Abandon == /\ phase = "up" /\ phase' = "out"       \* the server goes away without lifespan.shutdown
+           /\ UNCHANGED <<hs, i, cycle, adds, sd, calls, sent>>
+
+RecvShutdown == /\ phase = "up" /\ phase' = "shutdown" /\ i' = N /\ sd' = [sd EXCEPT ![cycle] = TRUE]
+                /\ UNCHANGED <<hs, cycle, adds, calls, sent>>
 
 ShutdownCall(act) ==
     /\ phase = "shutdown" /\ i >= 1 /\ "shutdown" \in hs[i]
     /\ calls' = Append(calls, Call("shutdown", i, act))
     /\ IF act = "ok" THEN i' = i - 1 /\ UNCHANGED <<phase, sent>>
-       ELSE sent' = Append(sent, "shutdown.failed") /\ phase' = "down" /\ UNCHANGED i
-    /\ UNCHANGED hs
+       ELSE sent' = Append(sent, Sent("shutdown.failed")) /\ phase' = "out" /\ UNCHANGED i
+    /\ UNCHANGED <<hs, cycle, adds, sd>>
 ShutdownSkip == /\ phase = "shutdown" /\ i >= 1 /\ "shutdown" \notin hs[i] /\ i' = i - 1
-                /\ UNCHANGED <<hs, phase, calls, sent>>
+                /\ UNCHANGED <<hs, phase, cycle, adds, sd, calls, sent>>
 ShutdownDone == /\ phase = "shutdown" /\ i < 1
-                /\ sent' = Append(sent, "shutdown.complete") /\ phase' = "down" /\ UNCHANGED <<hs, i, calls>>
+                /\ sent' = Append(sent, Sent("shutdown.complete")) /\ phase' = "out"
+                /\ UNCHANGED <<hs, i, cycle, adds, sd, calls>>
 
-Next == RecvStartup \/ (\E a \in {"ok", "raise"} : StartupCall(a)) \/ StartupSkip \/ StartupDone
+Next == (\E s \in AddShapes : AddMiddleware(s)) \/ Enter \/ RecvStartup
+        \/ (\E a \in {"ok", "raise"} : StartupCall(a)) \/ StartupSkip \/ StartupDone \/ Abandon
         \/ RecvShutdown \/ (\E a \in {"ok", "raise"} : ShutdownCall(a)) \/ ShutdownSkip \/ ShutdownDone
 Spec == Init /\ [][Next]_vars
 
-(* ---- properties ---- *)
+(* ---- properties (every one per cycle) ---- *)
 Ix == 1..Len(calls)
-Of(site) == {k \in Ix : calls[k].site = site}
-StartupInOrder   == \A j, k \in Of("startup") : j < k => calls[j].c < calls[k].c
-ShutdownReversed == \A j, k \in Of("shutdown") : j < k => calls[j].c > calls[k].c
-StartupBeforeShutdown == \A j \in Of("startup"), k \in Of("shutdown") : j < k
-FirstFailureStops == \A k \in Ix : calls[k].act = "raise" => k = Len(calls) /\ phase = "down"
-Raised(site) == \E k \in Of(site) : calls[k].act = "raise"
-With(m) == {c \in 1..N : m \in hs[c]}
-EventsLegal ==
-    /\ sent \in {<<>>, <<"startup.complete">>, <<"startup.failed">>,
-                 <<"startup.complete", "shutdown.complete">>, <<"startup.complete", "shutdown.failed">>}
-    /\ (Len(sent) >= 1 /\ sent[1] = "startup.failed") = Raised("startup")
-    /\ (Len(sent) >= 2 /\ sent[2] = "shutdown.failed") = Raised("shutdown")
-CompleteMeansAllRan ==
-    /\ (Len(sent) >= 1 /\ sent[1] = "startup.complete") => {calls[k].c : k \in Of("startup")} = With("startup")
-    /\ (Len(sent) >= 2 /\ sent[2] = "shutdown.complete") => {calls[k].c : k \in Of("shutdown")} = With("shutdown")
+Of(site, k) == {j \in Ix : calls[j].site = site /\ calls[j].cyc = k}
+SentIn(k) == SelectSeq(sent, LAMBDA e : e.cyc = k)
+Evs(k) == [j \in 1..Len(SentIn(k)) |-> SentIn(k)[j].ev]
+Cycles == 1..cycle
+StartupInOrder   == \A k \in Cycles : \A a, b \in Of("startup", k) : a < b => calls[a].c < calls[b].c
+ShutdownReversed == \A k \in Cycles : \A a, b \in Of("shutdown", k) : a < b => calls[a].c > calls[b].c
+StartupBeforeShutdown == \A k \in Cycles : \A a \in Of("startup", k), b \in Of("shutdown", k) : a < b
+CyclesInOrder == \A a, b \in Ix : a < b => calls[a].cyc <= calls[b].cyc
+FirstFailureStops == \A j \in Ix : calls[j].act = "raise" =>
+                        \A j2 \in Ix : j2 > j => calls[j2].cyc > calls[j].cyc
+Raised(site, k) == \E j \in Of(site, k) : calls[j].act = "raise"
+(* the components the application had when cycle k ran *)
+NAt(k) == N - Cardinality({a \in 1..Len(adds) : adds[a].after >= k})
+With(m, k) == {c \in 1..NAt(k) : m \in hs[c]}
+EventsLegal == \A k \in Cycles :
+    /\ Evs(k) \in {<<>>, <<"startup.complete">>, <<"startup.failed">>,
+                   <<"startup.complete", "shutdown.complete">>, <<"startup.complete", "shutdown.failed">>}
+    /\ (Len(Evs(k)) >= 1 /\ Evs(k)[1] = "startup.failed") = Raised("startup", k)
+    /\ (Len(Evs(k)) >= 2 /\ Evs(k)[2] = "shutdown.failed") = Raised("shutdown", k)
+CompleteMeansAllRan == \A k \in Cycles :
+    /\ (Len(Evs(k)) >= 1 /\ Evs(k)[1] = "startup.complete")
+          => {calls[j].c : j \in Of("startup", k)} = With("startup", k)
+    /\ (Len(Evs(k)) >= 2 /\ Evs(k)[2] = "shutdown.complete")
+          => {calls[j].c : j \in Of("shutdown", k)} = With("shutdown", k)
 =========================================================================
